@@ -80,12 +80,20 @@ def json_defaults(doc, path="$", out=None):
     return out
 
 
-def check_default(drv, shape, position, d, out, stats):
+def check_default(drv, shape, position, d, out, stats, used=False):
     inner = SHAPES[shape](d)
     schema = POSITIONS[position](inner)
     case = {"shape": shape, "position": position, "default": core.enc_val(d), "schema": schema}
+    if used:
+        case["used_before_inspection"] = True
     out.note_case(case, True)
     status, el = core.real_parse(schema)
+    if used and status == "ok":
+        # the parsed element is put to use first (values that omit things, so that defaults are taken): what it carries
+        # afterwards is still exactly the declared default
+        for v in (core.NP, {}, [], {"other": "s"}, {"the prop": core.NP}, [core.NP], core.copy.deepcopy(d), {"p": 1}):
+            core.real_call(el, v)
+        stats["used-before-inspection"] = stats.get("used-before-inspection", 0) + 1
     try:
         rep = drv.ask({"op": "parse_serialize", "schema": core.enc_val(schema), "tables": core.schema_tables(schema, [])})
     except (TypeError, ValueError):
@@ -95,7 +103,11 @@ def check_default(drv, shape, position, d, out, stats):
             out.disagreements.append({"what": "parse outcome", "impl": status, "model": rep, **case})
         return
     out.traces_validated += 1
-    dump = core.dump_elem(el)
+    try:
+        dump = core.dump_elem(el)
+    except (TypeError, ValueError) as exc:
+        out.failures.append({"case": case, "what": f"the element no longer carries JSON values only ({exc}): a default was altered", "finding": None})
+        return
     agree = dump == rep["elem"]
     if not agree:
         out.disagreements.append({"what": "parsed tree", "impl": dump, "model": rep["elem"], **case})
@@ -364,6 +376,8 @@ def run(ctx, scale=1.0):
             for shape in SHAPES:
                 for position in POSITIONS:
                     check_default(drv, shape, position, d, out, stats)
+                    if isinstance(d, (dict, list)):
+                        check_default(drv, shape, position, d, out, stats, used=True)
         descs = list(WHITESPACE_DESCRIPTIONS) + HOSTILE_DESCRIPTIONS
         alphabet = "ab \n\t\"'\\xnu0{}é✓\r"
         for _ in range(int((150 if ctx["tier"] == "quick" else 5000) * scale)):
@@ -422,7 +436,7 @@ def _replay_case(case):
             check_description(case["description"], out, stats)
         else:
             from harness import dsl
-            check_default(drv, case["shape"], case["position"], dsl.dec_val(case["default"]), out, stats)
+            check_default(drv, case["shape"], case["position"], dsl.dec_val(case["default"]), out, stats, used=bool(case.get("used_before_inspection")))
     finally:
         drv.close()
     return out
